@@ -569,7 +569,11 @@ impl Project {
                     } else if let Some(p) = &b.prologue {
                         let _ = writeln!(s, "backend {} prologue r#\"{p}\"#;", b.name);
                     } else if let Some(e) = &b.epilogue {
-                        let _ = writeln!(s, "backend {} epilogue \"{e}\";", b.name);
+                        if e.contains('"') || e.contains('\\') || e.contains('\n') {
+                            let _ = writeln!(s, "backend {} epilogue r#\"{e}\"#;", b.name);
+                        } else {
+                            let _ = writeln!(s, "backend {} epilogue \"{e}\";", b.name);
+                        }
                     }
                 }
             }
@@ -697,6 +701,15 @@ impl<'a> Gen<'a> {
                 'T' => format!("Node{idx}"),
                 'E' => format!("NODE{idx}"),
                 _ => format!("node{idx}"),
+            },
+            3 => match kind {
+                // An enum that differs only in case from the type declared just before it.
+                'T' => format!("Shape{idx}"),
+                'E' if idx > 0 && matches!(self.p.items[idx - 1].kind, ItemKind::Type { .. }) => {
+                    self.p.items[idx - 1].name.to_uppercase()
+                }
+                'E' => format!("SHAPE{idx}"),
+                _ => format!("shape{idx}"),
             },
             _ => format!("{kind}{idx}"),
         }
@@ -1145,6 +1158,70 @@ impl<'a> Gen<'a> {
                 impl_funcs.push(self.func(m, false));
             }
         }
+        // Function names are not globally unique in real descriptions: sometimes take the name
+        // of a function of some other type. Names this type already has (own vftable, own impl
+        // functions, anything inherited from its bases) are avoided, those are errors.
+        {
+            let mut taken: BTreeSet<String> = BTreeSet::new();
+            let mut todo: Vec<usize> = laid
+                .iter()
+                .filter(|f| f.base)
+                .filter_map(|f| f.ty.by_value_item())
+                .collect();
+            while let Some(b) = todo.pop() {
+                if let ItemKind::Type {
+                    fields,
+                    vftable,
+                    impl_funcs,
+                    ..
+                } = &self.p.items[b].kind
+                {
+                    for f in vftable.iter().flat_map(|v| v.funcs.iter()).chain(impl_funcs.iter()) {
+                        taken.insert(f.name.clone());
+                        taken.insert(format!("base0_{}", f.name));
+                        taken.insert(format!("base1_{}", f.name));
+                    }
+                    todo.extend(fields.iter().filter(|f| f.base).filter_map(|f| f.ty.by_value_item()));
+                }
+                if let Some(vs) = &self.p.items[b].vslots {
+                    taken.extend(vs.iter().map(|f| f.name.clone()));
+                }
+            }
+            if let Some(vs) = &vslots {
+                taken.extend(vs.iter().map(|f| f.name.clone()));
+            }
+            taken.extend(impl_funcs.iter().map(|f| f.name.clone()));
+            let pool: Vec<String> = self
+                .p
+                .items
+                .iter()
+                .filter_map(|it| match &it.kind {
+                    ItemKind::Type {
+                        vftable,
+                        impl_funcs,
+                        ..
+                    } => Some(
+                        vftable
+                            .iter()
+                            .flat_map(|v| v.funcs.iter())
+                            .chain(impl_funcs.iter())
+                            .map(|f| f.name.clone())
+                            .collect::<Vec<_>>(),
+                    ),
+                    _ => None,
+                })
+                .flatten()
+                .filter(|n| !n.starts_with("_vfunc_"))
+                .collect();
+            for f in impl_funcs.iter_mut() {
+                if !pool.is_empty() && self.rng.chance(1, 6) {
+                    let n = self.rng.pick(&pool).clone();
+                    if taken.insert(n.clone()) {
+                        f.name = n;
+                    }
+                }
+            }
+        }
         let _ = nbases;
 
         Item {
@@ -1225,7 +1302,7 @@ pub fn gen_valid(rng: &mut Rng, cfg: &GenCfg, ptr: usize) -> Project {
         addr_counter: 0x1000,
         names: 0,
     };
-    g.names = *g.rng.pick(&[0usize, 0, 0, 1, 2]);
+    g.names = *g.rng.pick(&[0usize, 0, 0, 1, 2, 3]);
     let nitems = g.cfg.max_items;
     for idx in 0..nitems {
         let m = g.rng.below(nmod);
@@ -1276,15 +1353,29 @@ pub fn gen_valid(rng: &mut Rng, cfg: &GenCfg, ptr: usize) -> Project {
             for k in 0..g.rng.below(4) {
                 let name = if g.rng.chance(3, 4) { "rust" } else { "cpp" };
                 let braced = g.rng.chance(1, 2);
+                let rich = g.rng.chance(1, 3);
                 let marker = |kind: &str| {
-                    format!(
+                    let base = format!(
                         "pub const {}_{}_{}_{}: u32 = {};",
                         kind,
                         name.to_uppercase(),
                         m,
                         k,
                         k + 1
-                    )
+                    );
+                    if rich && k % 2 == 1 {
+                        // Ends in a line comment, starts with one.
+                        format!("// generated for {kind}\n{base} // trailing note")
+                    } else if rich {
+                        // Text that looks like the surrounding syntax: keywords of the backend
+                        // block, semicolons, braces, a hash, a blank line, several items.
+                        format!(
+                            "{base}\n\npub const {kind}_TEXT_{m}_{k}: &str = \"prologue epilogue; }} backend {{ # \";\npub fn {}_helper_{m}_{k}() {{}}",
+                            kind.to_lowercase()
+                        )
+                    } else {
+                        base
+                    }
                 };
                 let (prologue, epilogue) = if braced {
                     match g.rng.below(3) {
